@@ -44,7 +44,8 @@ class C17(Prop):
         "(any failures, interleavings, rollback sets, is_recovering answers) no version exceeds max(1, max_retries); "
         "a raise happens exactly when an update finds a job at the limit; for an isolated job (rollback sets containing "
         "just the failing job) any failure pattern executes it at most `limit` times and version = executions, a job whose "
-        "first `limit` attempts fail fails the run after exactly `limit` executions, fewer failures complete; the dummy manager fails at the first failure after one "
+        "first `limit` attempts fail fails the run after exactly `limit` executions, fewer failures complete; for any rollback "
+        "sets a job asked to roll back `limit` times makes some _synchronize_workflows call raise; the dummy manager fails at the first failure after one "
         "execution. Tied to /repo by (a) driving the real RollbackFailureManager._synchronize_workflows/_update_request "
         "through generated rollback histories against a stub scheduler and (b) running real workflows (pipelines, "
         "scatter/gather, diamonds; schedule/transfer/execute faults; soft and fail-stop; limits 1..5; counts 0..limit+2) "
@@ -60,7 +61,8 @@ class C17(Prop):
         "re-raises); their content is the CDummy correspondence and the oracle on real runs with the dummy manager. (4) "
         "C17_bound, C17_exhaust, C17_completes_below_limit and C17_chain are about an ISOLATED job / a chain of isolated jobs "
         "(every rollback set contains just the failing job: soft failures); jobs rolled back as producers of someone else's "
-        "failure are covered by C17_versions_bounded (any rollback sets) and, for completion, by C16_completes_partial. "
+        "failure are covered by C17_versions_bounded and C17_exhaust_any_rollback_sets (any rollback sets: a job asked to roll "
+        "back `limit` times makes some call raise) and, for completion, by C16_completes_partial. "
         "Trusted: Coq kernel + vm_compute, the hand-written model Retry/Model.v, the harness (fault injection classes, "
         "recording shims that call the unchanged methods), asyncio, SQLite. No axioms.")
     TECHNIQUE = ("Coq proof (invariant over all rollback histories; induction over failure patterns) + vm_compute "
